@@ -79,7 +79,9 @@ func (r *Run) makeMap(st *State, fr *Frame, x *ssa.MakeMap) Val {
 	m := e.freshConst("newmap", SRef)
 	st.assume(Not(Eq(m, NilOf(SRef))))
 	for _, o := range st.Fresh {
-		st.assume(Not(Eq(m, o)))
+		if o.So == SRef {
+			st.assume(Not(Eq(m, o)))
+		}
 	}
 	st.Fresh = append(st.Fresh, m)
 	// empty: has(m, k) = false for all k, len = 0
